@@ -146,6 +146,8 @@ func entropy(r *rand.Rand) *vm.Entropy {
 		}
 	case 2:
 		e.Script = []vm.ReadStep{{Kind: "zero"}, {Kind: "short", N: 1 + r.Intn(31)}, {Kind: "zero"}}
+	case 3, 4: // the caller supplies no source: the library's default (crypto/rand.Reader, simulated) is read
+		e.Default = true
 	}
 	return e
 }
